@@ -142,8 +142,14 @@ func errClass(err error) string {
 }
 
 func (e *recExporter) ExportSpans(ctx context.Context, spans []sdktrace.ReadOnlySpan) error {
+	// id 0 = a span the scenario did not end (e.g. a flush marker that leaked into a batch), -1 = a nil entry:
+	// the contract reports either as exported-invalid-span
 	ids := make([]int, len(spans))
 	for i, s := range spans {
+		if s == nil {
+			ids[i] = -1
+			continue
+		}
 		ids[i] = e.ids[s.SpanContext().SpanID()]
 	}
 	if t, ok := pendingTotals.LoadAndDelete(goid()); ok {
